@@ -118,7 +118,7 @@ theorem locateSlice_increasing_spec (L : List Label) (kind : Kind) (start stop :
       | none => simp [Spec.leOpt]
       | some v =>
         simp only [Option.map_some, Option.getD_some, Spec.leOpt]
-        have := searchLeft_partition' Label.le Label.le_trans Label.le_total L hpw v p hp'
+        have := searchLeft_partition Label.le Label.le_trans Label.le_total L hpw v p hp'
         rw [← label_lt_eq] at this
         cases hle : Label.le v L[p]
         · have := this.mpr hle
@@ -129,7 +129,7 @@ theorem locateSlice_increasing_spec (L : List Label) (kind : Kind) (start stop :
       | none => simp [Spec.geOpt, hp']
       | some w =>
         simp only [Option.map_some, Option.getD_some, Spec.geOpt]
-        have := searchRight_partition' Label.le Label.le_trans Label.le_total L hpw w p hp'
+        have := searchRight_partition Label.le Label.le_trans Label.le_total L hpw w p hp'
         rw [← label_lt_eq] at this
         cases hle : Label.le L[p] w
         · have hnot : ¬ (p < searchRight Label.lt L w) := fun h => by simp [this.mp h] at hle
@@ -239,7 +239,7 @@ theorem locateSlice_decreasing_spec (L : List Label) (kind : Kind) (start stop :
       | none => simp [Spec.leOpt, hp']
       | some w =>
         simp only [Option.map_some, Option.getD_some, Spec.leOpt]
-        have := searchLeft_partition' Label.le Label.le_trans Label.le_total L.reverse hpw w _ hq
+        have := searchLeft_partition Label.le Label.le_trans Label.le_total L.reverse hpw w _ hq
         rw [← label_lt_eq, hrev] at this
         have hb := hsl w
         cases hle : Label.le w L[p]
@@ -251,7 +251,7 @@ theorem locateSlice_decreasing_spec (L : List Label) (kind : Kind) (start stop :
       | none => simp [Spec.geOpt]
       | some v =>
         simp only [Option.map_some, Option.getD_some, Spec.geOpt]
-        have := searchRight_partition' Label.le Label.le_trans Label.le_total L.reverse hpw v _ hq
+        have := searchRight_partition Label.le Label.le_trans Label.le_total L.reverse hpw v _ hq
         rw [← label_lt_eq, hrev] at this
         have hb := hsr v
         cases hle : Label.le L[p] v
